@@ -326,7 +326,8 @@ class Runner:
             return F.reset_stream(fr[1], 7, fr[2])
         if k == "Ct":      # in-order CRYPTO: a TLS handshake message header announcing 2^24-1 bytes, then its body
             n = fr[1]
-            d = (bytes([4, 0xFF, 0xFF, 0xFF]) + bytes(n))[:n] if self.crypto_next == self.crypto_base else bytes(n)
+            L = fr[2] if len(fr) > 2 else 0xFFFFFF
+            d = (bytes([4]) + L.to_bytes(3, "big") + bytes(n))[:n] if self.crypto_next == self.crypto_base else bytes(n)
             off = self.crypto_next
             self.crypto_next += n
             self.min_in += [7, off, n] + list(d)
@@ -457,6 +458,8 @@ class Runner:
                     self._lose()
                 elif k == "Pa":    # PATH_CHALLENGE frames from another source address (a path the model does not have)
                     self.multi_addr = True
+                    dv = int.from_bytes(bytes([op[1] & 0xFF]) * 8, "big")
+                    self.min_in += [11, op[1], op[2]] + [dv] * op[2]
                     data = self.pup.build_packet("1rtt", [self.F.path_challenge(bytes([op[1] & 0xFF]) * 8)] * op[2])
                     self.sub.receive_datagram(data, ("10.9.%d.%d" % (op[1] // 250, op[1] % 250 + 1), 4000 + op[1]))
                     self.stats["packets"] += 1
@@ -546,6 +549,12 @@ def gen_boundary():
             for cnt in (256, 257):
                 cases.append(_case(subject, 1000, 4000, [["S", s65, 0, 1, 1, 0, 0], ["S", base + 4 * (cnt - 1), 0, 1, 1, 0, 0]],
                                    kind="stream-count-raised"))
+        # raise one stream-count limit, then probe the OTHER type at its own (unraised) limit, and at the raised value
+        for a, b in ((pb, pu), (pu, pb)):
+            for cnt in (128, 129, 256):
+                cases.append(_case(subject, 1000, 4000, [["S", a + 4 * 64, 0, 1, 1, 0, 0], ["S", b + 4 * (cnt - 1), 0, 1, 1, 0, 0]],
+                                   kind="stream-count-cross"))
+            cases.append(_case(subject, 1000, 4000, [["S", a + 4 * 64, 0, 1, 1, 0, 0], ["R", b + 4 * 128, 0]], kind="stream-count-cross"))
         cases.append(_case(subject, 1000, 4000, [["T", 0x11, pb + 4 * 128]], kind="stream-count"))
         cases.append(_case(subject, 1000, 4000, [["T", 0x11, pu]], kind="direction"))
         cases.append(_case(subject, 1000, 4000, [["T", 0x11, ob]], kind="direction"))
@@ -685,6 +694,10 @@ def gen_repetition(rng, thorough=False):
         cases.append(_case(subject, 1000, 4000, [["C", 3, 50], ["C", UVM - 10, 11]], kind="crypto"))
         cases.append(_case(subject, 1000, 4000, [["C", 70000, 1000], ["C", 524288, 1]], kind="crypto"))
         cases.append(_case(subject, 1000, 4000, [["C", 7, 10], ["C", 3000000, 10]], kind="crypto"))
+        # in-order CRYPTO: a handshake message header announcing a body of L bytes, then part of the body
+        for L in (524288 - 4, 524288 - 3, 70000, 0xFFFFFF):
+            cases.append(_case(subject, 1000, 4000, [["Ct", 900, L]] * 40, kind="tls-reassembly"))
+        cases.append(_case(subject, 1000, 4000, [["Ct", 3, 524288], ["Ct", 1, 524288], ["Ct", 10, 524288]], kind="tls-reassembly"))
     return cases
 
 
@@ -767,9 +780,15 @@ def run(ctx):
     s = suite(ctx)
     sl = suite_long(ctx)
     s.run(corr.load_corpus("C07", s.name), "corpus")
+    sl.run(corr.load_corpus("C07", sl.name), "corpus")
     rng = ctx.rng
     cases = gen_boundary() + gen_final_size() + gen_repetition(rng, ctx.thorough) + gen_lost_limits()
-    s.run(cases)
+    # one batch per family: corr.Suite reports at most three failing cases per batch
+    fams = collections.OrderedDict()
+    for c in cases:
+        fams.setdefault(c["kind"].split("-")[0] + ("-cross" if c["kind"].endswith("cross") else ""), []).append(c)
+    for fam in fams.values():
+        s.run(fam)
     s.run(gen_random(rng, ctx.n(120, 3000)))
     found = gen_findings(ctx.thorough)
     for kind in ("finding-reset-double-count",):
